@@ -165,6 +165,21 @@ Proof.
   - intros ND. apply found_by_id; assumption.
 Qed.
 
+(** * the directory scan *)
+(* directories without an events file do not change which segments are sealed, nor which one is live *)
+Lemma scan_ignores_empty_dirs dirs j : scan_sealed (dirs ++ [(j, false)]) = scan_sealed dirs /\ live_of (dirs ++ [(j, false)]) = live_of dirs.
+Proof. unfold scan_sealed, live_of. rewrite filter_app. cbn [filter snd]. rewrite app_nil_r. split; reflexivity. Qed.
+
+Lemma scan_live_not_sealed dirs : ~ In (live_of dirs) (scan_sealed dirs).
+Proof.
+  unfold scan_sealed, live_of. intros H. apply filter_In in H. destruct H as [_ H]. rewrite N.eqb_refl in H. discriminate.
+Qed.
+
+Lemma scan_v0_live_sealed :
+  scan_sealed_v0 [(0, true); (1, true); (2, false)] = [0; 1] /\ live_of [(0, true); (1, true); (2, false)] = 1 /\
+  scan_sealed [(0, true); (1, true); (2, false)] = [0].
+Proof. vm_compute. repeat split; reflexivity. Qed.
+
 (** * the code before the repair *)
 Definition w_lay_e : layout := mkLay 60 156 156.     (* 4 events: 20 + 40 MPHF bytes, 4 records of 24 bytes *)
 Definition w_lay_p : layout := mkLay 44 82 146.      (* 1 partition: 1 record of 38 bytes, 4 values of 16 bytes *)
